@@ -206,6 +206,9 @@ func c14Units(tier string, seed int64) []Unit {
 	for _, bound := range bounds {
 		for _, sc := range c14Scenarios(quick) {
 			sc, bound := sc, bound
+			if quick && sc.nested > 0 {
+				bound = 2 // every draw of a nested Custom adds scheduling points: bound 3 is left to the thorough tier
+			}
 			uname := "C14/" + sc.name
 			if bound > 4 {
 				uname += fmt.Sprintf("/preemptions<=%d", bound)
